@@ -5,6 +5,7 @@ import Driver.Table
 import Driver.Extract
 import Driver.Sexp
 import Driver.Pool
+import Driver.Scheduler
 open Driver
 
 structure St where
@@ -23,6 +24,7 @@ def dispatch (s : St) (line : String) : St × String :=
   | "ex" :: rest => let (p, o) := exStep s.ex rest; ({ s with ex := p }, o)
   | "sx" :: rest => (s, sxStep rest)
   | "pool" :: rest => (s, poolStep rest)
+  | "sch" :: rest => (s, schStep rest)
   | _ => (s, "bad-op")
 
 partial def loop (h : IO.FS.Stream) (out : IO.FS.Stream) (s : St) : IO Unit := do
